@@ -1399,8 +1399,35 @@ def rule_insert_layout(ctx: Ctx) -> None:
         if isinstance(e, ast.Constant) and e.value == 0:
             return "scalar0"
         return None
-    ins = [a for a in fn.body if isinstance(a, ast.Assign) and isinstance(a.value, ast.Call) and call_name(a.value) == "np.insert"]
+    from ..core import unroll_literal_loops as _unroll
+    body_u = _unroll(fn).body          # `for index in (p, n + p): v = np.insert(v, index, 0)` reads as the two inserts
+    ins = [a for a in body_u if isinstance(a, ast.Assign) and isinstance(a.value, ast.Call) and call_name(a.value) == "np.insert"]
     blocks = {}
+    # names that start as one of the tableau's sign vectors (`new_phase, new_iphase = tableau.phase, tableau.iphase`) and grow by single inserts
+    alias = {}
+    for a in body_u:
+        if isinstance(a, ast.Assign) and len(a.targets) == 1:
+            t_, v_ = a.targets[0], a.value
+            pairs = list(zip(t_.elts, v_.elts)) if isinstance(t_, ast.Tuple) and isinstance(v_, ast.Tuple) and len(t_.elts) == len(v_.elts) else [(t_, v_)]
+            for tt, vv in pairs:
+                if isinstance(tt, ast.Name) and norm(vv) in (f"{TB}.phase", f"{TB}.iphase"):
+                    alias[tt.id] = norm(vv).split(".")[-1]
+    seq = {}
+    for a in list(ins):
+        c = a.value
+        if get_kw(c, "axis") is None and len(c.args) >= 3 and isinstance(c.args[0], ast.Name) and c.args[0].id in alias and norm(a.targets[0]) == c.args[0].id \
+                and not isinstance(c.args[1], (ast.List, ast.Tuple)):
+            seq.setdefault(alias[c.args[0].id], []).append((a, c))
+            ins.remove(a)
+    for kind, steps in seq.items():
+        idx = [L(c.args[1]) for _, c in steps]
+        good = len(steps) == 2 and (idx == [{P: 1}, {P: 1, N: 1, "": 1}] or idx == [{P: 1, N: 1}, {P: 1}])
+        if not good:
+            bad.append(f"`{short(steps[-1][0])}`: the {kind} vector grows by single inserts at {[linear.show(i) for i in idx]}; done one after the other the new entries "
+                       f"belong at {P} and then {N} + {P} + 1 (the first insert has already shifted the stabilizer half), or at {N} + {P} first and then {P}")
+        if any(zeros_len(c.args[2]) != "scalar0" for _, c in steps):
+            bad.append(f"`{short(steps[0][0])}`: the inserted sign must be 0")
+        blocks[kind] = norm(steps[-1][0].targets[0])
     for a in ins:
         c = a.value
         if len(c.args) < 3:
